@@ -115,7 +115,13 @@ pub fn j_pair(a: &Pt, b: &Pt, out: &mut Local) {
     let kind = format!("{}/{}", scale_name(a.ts), scale_name(b.ts));
     let rel = {
         let za = scales::zero_tai(a.ts).unwrap_or(if a.exact { 0 } else { J2000_TAI - 32_184_000_000 });
-        if a.ts == b.ts && a.c == -b.c && a.c != 0 {
+        let zb = scales::zero_tai(b.ts).unwrap_or(if b.exact { 0 } else { J2000_TAI - 32_184_000_000 });
+        let inr = |v: i128| (DMIN..=DMAX).contains(&v);
+        if a.ts != b.ts && (a.c.abs() > 30_000 * NPC || b.c.abs() > 30_000 * NPC) && !(inr(a.tai) && inr(b.tai) && inr(a.tai - zb) && inr(b.tai - za)) {
+            // the comparison converts one operand into the other's scale through TAI: one of those values is not
+            // representable, so the conversion saturates (KNOWN_FINDINGS D51)
+            "conversion-saturates-at-the-end-of-the-range"
+        } else if a.ts == b.ts && a.c == -b.c && a.c != 0 {
             "symmetric-about-scale-zero"
         } else if (a.tai - za).abs() == (b.tai - za).abs() && a.tai != b.tai {
             "symmetric-about-a-zero"
@@ -156,6 +162,7 @@ pub fn j_pair(a: &Pt, b: &Pt, out: &mut Local) {
                 }
             };
             match bad {
+                Some((cls, exp, obs)) if rel.starts_with("conversion-saturates") => out.viol("c12.pair", format!("{cls},{rel}"), args, exp, obs),
                 Some((cls, exp, obs)) => out.viol("c12.pair", format!("{cls},{kind},{rel}"), args, exp, obs),
                 None => {
                     let nt = a.ts != b.ts || rel != "other" || (a.tai - b.tai).abs() <= 1;
@@ -281,6 +288,28 @@ pub fn run(rep: &mut Report) {
     far.sort();
     let nf = far.len() as u64;
     rep.bound("far_points_per_scale", nf);
+    // far range, two scales (the uniform ones, whose offsets are constants): the same instant, and instants 1 ns, 1 s
+    // and 20 s apart, given in two different scales near both ends of the range
+    let us = [TimeScale::TAI, TimeScale::TT, TimeScale::GPST, TimeScale::QZSST, TimeScale::GST, TimeScale::BDT];
+    let mut cross: Vec<(Pt, Pt)> = vec![];
+    for ta in us {
+        for tb in us {
+            if ta == tb {
+                continue;
+            }
+            for ca in &far {
+                let tai_a = *ca + scales::zero_tai(ta).unwrap();
+                for d in [0i128, 1, -1, NS, -20 * NS] {
+                    let cb = tai_a + d - scales::zero_tai(tb).unwrap();
+                    if (DMIN..=DMAX).contains(&cb) {
+                        cross.push((Pt { ts: ta, c: *ca, tai: tai_a, exact: true }, Pt { ts: tb, c: cb, tai: tai_a + d, exact: true }));
+                    }
+                }
+            }
+        }
+    }
+    rep.bound("far_cross_scale_pairs", cross.len() as u64);
+    sweep(rep, "c12.far[cross]", cross.len() as u64, |i, out| j_pair(&cross[i as usize].0, &cross[i as usize].1, out));
     sweep(rep, "c12.far", 9 * nf * nf, |i, out| {
         let ts = SCALES[(i / (nf * nf)) as usize];
         let (ca, cb) = (far[((i / nf) % nf) as usize], far[(i % nf) as usize]);
@@ -294,8 +323,9 @@ pub fn replay(check: &str, a: &[String], out: &mut Local) -> bool {
         let ts = scale_from(ts);
         let c = p128(c);
         if c.abs() > 20_000 * NPC {
-            // far-range points are only ever paired within one scale (c12.far): the count itself orders them
-            return Pt { ts, c, tai: c, exact: true };
+            // far-range points: uniform scales by their constant offset; the others are only ever paired within one
+            // scale (c12.far), where the count itself orders them
+            return Pt { ts, c, tai: c + scales::zero_tai(ts).unwrap_or(0), exact: true };
         }
         match scales::to_tai(c, ts, &leap) {
             Some(t) => Pt { ts, c, tai: t, exact: true },
